@@ -51,7 +51,7 @@ var c03Bodies = []string{`{"id":"https://x/y","k":1}`, `[1,2]`, `42`, `{"a":`, `
 // URL styles: 0 = /sN; in the others the first two URLs (same host) differ
 // only in a way a lossy normalisation would erase - an escaped slash, the
 // query, a trailing slash - while the server keeps them apart.
-var c03Styles = [][2]string{{"/s0", "/s1"}, {"/s0%2Fz", "/s0/z"}, {"/s0?v=1", "/s0?v=2"}, {"/s0", "/s0/"}}
+var c03Styles = [][2]string{{"/s0", "/s1"}, {"/s0%2Fz", "/s0/z"}, {"/s0?v=1", "/s0?v=2"}, {"/s0", "/s0/"}, {"/s0", "/s1?v=1"}}
 
 func c03URL(i int, style int) (string, string, string) {
 	host := VHostA
